@@ -65,7 +65,7 @@ def strategy(draw):
                                              "plot_peak_mean_curve", "plot_peak_individual_valid_curves", "plot_peak_individual_invalid_curves")}
     return dict(kind=kind, func=func, f=f, groups=groups, masks=masks, pmasks=pmasks, azimuths=azs, opts=opts,
                 dist_mc=draw(st.sampled_from(["lognormal", "normal"])), dist_fn=draw(st.sampled_from(["lognormal", "normal"])),
-                normalize=draw(st.booleans()), by_az=draw(st.booleans()), range=draw(st.sampled_from([None, None, "bounded"])),
+                normalize=draw(st.booleans()), by_az=draw(st.booleans()), range=draw(st.sampled_from([None, None, "bounded", "upper-part"])),
                 kw=draw(st.sampled_from([None, None, {"height-cap": 0.6}, {"height-cap-mean": 0.9}, {"height-cap-mean": 0.8}, {"prominence": 1.5}, {"width": 3}])),
                 two_peaks=dict(centre=draw(gen.floats(0.72, 0.85)), ratio=draw(gen.floats(0.45, 0.7))),
                 # one azimuth refined on its own afterwards (az.hvsrs[k].update_peaks_bounded): members then differ in their search range
@@ -100,7 +100,7 @@ def _build(hv, case):
     groups = [c06.expand_group(g, f) for g in case["groups"]]
     tp = case.get("two_peaks")
     mr_ = case.get("member_range")
-    if tp and ((case.get("kw") and "height-cap-mean" in case["kw"]) or (mr_ and mr_[1] == "second-bump" and case["kind"] == "azimuthal")):
+    if tp and ((case.get("kw") and "height-cap-mean" in case["kw"]) or (mr_ and mr_[1] == "second-bump" and case["kind"] == "azimuthal") or case["range"] == "upper-part"):
         # a second, lower bump common to all windows: the mean curve then has two clear peaks
         x = np.linspace(0, 1, len(f))
         groups = [A + tp["ratio"] * (A.max(axis=1, keepdims=True) - 1.0) * np.exp(-0.5 * ((x - tp["centre"]) / 0.04) ** 2) for A in groups]
@@ -117,8 +117,11 @@ def _build(hv, case):
     elif kw and "height-cap" in kw:
         top = float(np.max([np.max(g) for g in groups])) if case["kind"] != "diffuse_field" else float(np.max(groups[0][0]))
         kw = {"height": [None, kw["height-cap"] * top]}      # scipy: (min, max) admissible peak height
-    if case["range"] == "bounded" or kw:
+    if case["range"] in ("bounded", "upper-part") or kw:
         rng = (float(f[2]), float(f[-3])) if case["range"] == "bounded" else (None, None)
+        if case["range"] == "upper-part":
+            # a range that holds only the lower, common second bump: the peaks in range differ from the curves' global maxima
+            rng = (float(f[max(1, int((tp["centre"] - 0.08) * (len(f) - 1)))]), float(f[-2]))
         obj.update_peaks_bounded(rng, kw)
     members = obj.hvsrs if case["kind"] == "azimuthal" else ([obj] if case["kind"] == "traditional" else [])
     mr = case.get("member_range")
